@@ -51,11 +51,13 @@ ASSUMPTIONS = [
 BOUNDS = {'quick': '7 operation kinds (add, delete, generate, divide with '
                    'explicit daughters, divide copying the mother, move out, '
                    'move in) x histories of length 1 (all) and 2 (selected '
-                   'pairs) x agent flavours flow / legacy / none',
+                   'pairs) x agent flavours flow / legacy / none; issued by a '
+                   'process, by a legacy deriver or by a first-layer flow step '
+                   'during a step phase',
           'thorough': 'all histories of length 2, length 3 for flavour flow; '
                       'continuation update(T<=3)'}
-OUTSIDE = 'operations issued by steps; parallel processes (C13); nested ' \
-          'compartments deeper than loc/agent'
+OUTSIDE = 'parallel processes (C13); nested compartments deeper than ' \
+          'loc/agent'
 
 
 def jobs(tier):
@@ -77,6 +79,15 @@ def jobs(tier):
                 out.append(dict(name='%s-%s-any' % (flavor, KINDS[a]),
                                 flavor=flavor, ops=[a, None], budget_s=1200,
                                 crosscheck=10))
+    for issuer in ('deriver', 'flowstep'):
+        for k in range(len(KINDS)):
+            out.append(dict(name='%s-flow-%s' % (issuer, KINDS[k]),
+                            flavor='flow', ops=[k], issuer=issuer,
+                            budget_s=100 if q else 900))
+        for a, b in [(2, 1), (2, 3), (3, 5)]:
+            out.append(dict(name='%s-flow-%s-%s' % (issuer, KINDS[a], KINDS[b]),
+                            flavor='flow', ops=[a, b], issuer=issuer,
+                            budget_s=100 if q else 900))
     if not q:
         for a in (2, 3, 5):
             out.append(dict(name='flow-%s-any-any' % KINDS[a], flavor='flow',
@@ -125,11 +136,13 @@ def body(ctx, cfg):
              for k in cfg['ops']]
     ctx.note('history', [KINDS[k] for k in kinds])
     sink = stubs.reset_sink()
-    actor_last = ctx.flag('actor_last')
+    issuer = cfg.get('issuer', 'process')
+    actor_last = ctx.flag('actor_last') if issuer == 'process' else False
     ctx.note('actor_last', actor_last)
+    ctx.note('issuer', issuer)
     e = hist.build(ctx, kinds, cfg['flavor'], ts_a, ts_g, d,
                    emitter={'type': 'vsym_rec', 'tag': 'A'},
-                   actor_last=actor_last)
+                   actor_last=actor_last, issuer=issuer)
     H = 2 * len(kinds) + 1
     T = ctx.int('T', 1, 3)
     ends = [H, H + T]
@@ -295,12 +308,23 @@ def invocation_claims(ctx, e, ts_a, ts_g, ends, info):
     for l in LOG:
         if l[0] == 'phase_begin':
             phases[l[1]] = dict(live=l[2], ran=[])
+        elif l[0] == 'phase_end':
+            phases[l[1]]['live_end'] = l[2]
         elif l[0] == 'step':
             phases.setdefault(l[3], dict(live=set(), ran=[]))['ran'].append(
                 l[1])
-    ok = all(sorted(ph['ran']) == sorted(ph['live']) for ph in phases.values())
+    # every step present when the phase begins runs exactly once unless it is
+    # deleted before its turn (then it is gone at the end of the phase); a
+    # step created during the phase does not run in it
+    ok = True
+    for k, ph in phases.items():
+        ran = ph['ran']
+        ok &= len(ran) == len(set(ran))
+        ok &= set(ran) <= set(ph['live'])
+        ok &= all(s in ran for s in ph['live'] if s in ph.get('live_end', ()))
     ctx.claim('C10.steps_once', ok, sig='steps_once', info=lambda: dict(
-        phases={k: (sorted(v['live']), v['ran']) for k, v in phases.items()},
+        phases={k: (sorted(v['live']), v['ran'],
+                    sorted(v.get('live_end', ()))) for k, v in phases.items()},
         **info()))
     for i in CTX['issued']:
         if i[0] in ('generate', 'divide') and any(
